@@ -235,10 +235,12 @@ def shapes_quick():
 def build_cases(tier):
     shapes = shapes_quick()
     if tier != 'quick':
-        for _ in range(220):
-            shapes.append((rng.choice([rng.randrange(2, 20), rng.randrange(56, 72), rng.randrange(120, 136), rng.randrange(2, 200)]),
-                           rng.choice([rng.randrange(2, 20), rng.randrange(56, 72), rng.randrange(120, 136), rng.randrange(2, 200)]),
-                           rng.choice([rng.randrange(2, 12), rng.randrange(2, 40), rng.randrange(1000, 1040), rng.randrange(2, 2100)])))
+        for _ in range(200):
+            n_il = rng.choice([rng.randrange(2, 20), rng.randrange(56, 72), rng.randrange(120, 136), rng.randrange(2, 200)])
+            n_xl = rng.choice([rng.randrange(2, 20), rng.randrange(56, 72), rng.randrange(120, 136), rng.randrange(2, 200)])
+            ns = rng.choice([rng.randrange(2, 12), rng.randrange(2, 40)] if n_il * n_xl > 1500 else
+                            [rng.randrange(2, 12), rng.randrange(2, 40), rng.randrange(1000, 1040), rng.randrange(2, 2100)])
+            shapes.append((n_il, n_xl, ns))
         shapes += [(200, 196, 33), (192, 129, 12), (129, 257, 5)]
     cases = []
     cfgs = ['four', 'two', 'three', 'dup', 'strip']
@@ -268,106 +270,14 @@ def refused_cases():
     return c
 
 
-cases = build_cases(a.tier)
-records = []      # per case: what the correspondence needs
-src, out = os.path.join(D, 'src.sgz'), os.path.join(D, 'out.sgz')
-t_start = time.time()
-for case in cases:
-    canon = (case['shape'], case['irregular'], case['cfg'], case['route'])
-    inp = {'shape': list(case['shape']), 'irregular': case['irregular'], 'headers': case['cfg'], 'route': case['route'], 'seed': case['seed']}
-    for p in (src, out):
-        if os.path.exists(p):
-            os.remove(p)
-    try:
-        make_source(case, src)
-    except Exception as e:
-        R.notes.append(f'source {inp} could not be written: {repr(e)[:120]}')
-        continue
-    S = SpecFile(src)
-    if S.is2d or S.bs != (4, 4, 1024) or S.rate != 2:
-        R.notes.append(f'source {inp} is not a 2-bit default-layout 3D file: skipped')
-        continue
-    exc, reads = reblock(src, out)
-    if exc is not None:
-        R.violation('oracle', inp, 'convert_to_adv_sgz raised ' + repr(exc)[:200])
-        R.case(canon, True)
-        continue
-    O = SpecFile(out)
-    problems = oracle(case, src, out, S, O)
-    for m in problems:
-        R.violation('oracle', inp, m)
-    R.case(canon, nontrivial=case['shape'] != (1, 1, 1),
-           sample={'shape': list(case['shape']), 'irregular': case['irregular'], 'headers': case['cfg'], 'stored_arrays': S.nha,
-                   'out_blocks': O.ndb, 'reads': len(reads)})
-    R.count('irregular' if case['irregular'] else 'regular')
-    R.count(f'arrays={S.nha}')
-    R.count('z blocks of the source=%d' % (S.shape_pad[2] // 1024))
-    R.count('64-blocks il x xl = %dx%d' % (-(-S.n_il // 64), -(-S.n_xl // 64)))
-    if not a.no_model:
-        gi, gx, gz = -(-S.n_il // 64) * 16, -(-S.n_xl // 64) * 16, -(-S.n_s // 4)
-        coords = None
-        if gi * gx * gz > 8000:
-            cs = set()
-            for iu in (0, 1, (S.n_il - 1) // 4, min((S.n_il - 1) // 4 + 1, gi - 1), 15, 16, gi - 1):
-                for xu in (0, (S.n_xl - 1) // 4, min((S.n_xl - 1) // 4 + 1, gx - 1), 15, 16, gx - 1):
-                    for zu in (0, 1, 255, 256, gz - 1):
-                        if 0 <= iu < gi and 0 <= xu < gx and 0 <= zu < gz:
-                            cs.add((iu, xu, zu))
-            while len(cs) < 700:
-                cs.add((rng.randrange(gi), rng.randrange(gx), rng.randrange(gz)))
-            coords = sorted(cs)
-        with SgzReader(src) as rr:
-            nfo = len(rr.stored_header_keys)
-            mask = None
-            if not rr.structured:
-                rr.get_unstructured_mask()
-                mask = rr.mask.copy()
-        records.append(dict(inp=inp, H=hdr_literal(S.raw), T=template_of(S.raw), hb64=list(S.raw[:64]), ob64=list(O.raw[:64]),
-                            reads=reads, nfo=nfo, mask=mask, coords=coords, grid=(gi, gx, gz), nlive=S.tracecount,
-                            sraw=S.raw, oraw=O.raw, S=S, O=O))
-    if a.tier == 'quick' and time.time() - t_start > 110:
-        R.notes.append('quick tier time budget reached: remaining generated cases skipped')
-        break
-
-# ------------------------------------------------------------------------------------------------ unsupported inputs
-ref_records = []
-for case in refused_cases():
-    inp = {'shape': list(case['shape']), 'headers': case['cfg'], 'route': case['route'], 'bpv': case.get('bpv', 2),
-           'blockshape': list(case.get('blockshape') or ())}
-    for p in (src, out):
-        if os.path.exists(p):
-            os.remove(p)
-    try:
-        if case['route'] == '2d':
-            sgy = src + '.sgy'
-            mk_segy_2d(sgy, rnd_cube(random.Random(case['seed']), (21, 9)))
-            write_segy_sgz(sgy, src, bpv=2)
-            os.remove(sgy)
-        else:
-            make_source(case, src)
-    except Exception as e:
-        R.notes.append(f'unsupported-input source {inp} could not be written: {repr(e)[:120]}')
-        continue
-    S = SpecFile(src)
-    exc, reads = reblock(src, out)
-    supported = (not S.is2d) and S.bs == (4, 4, 1024) and S.rate == 2
-    R.case(('refuse', case['cfg'], str(case.get('bpv')), str(case.get('blockshape'))), True)
-    R.count('unsupported input')
-    if supported:
-        R.notes.append(f'{inp} is a supported input after all')
-        continue
-    if not isinstance(exc, AssertionError):
-        R.violation('oracle', inp, f'unsupported input not refused with AssertionError: {repr(exc)[:120]}')
-    if os.path.exists(out):
-        R.violation('oracle', inp, 'a refused conversion left an output file')
-    ref_records.append(dict(inp=inp, H=hdr_literal(S.raw), refused=isinstance(exc, AssertionError)))
-
 # ------------------------------------------------------------------------------------------------ correspondence
 def tmpl_lit(T):
     return '[' + '; '.join(f'({zlit(k)}, {zlit(v0)}, {zlit(v1)})' for k, v0, v1 in T) + ']'
 
 
-if not a.no_model and (records or ref_records):
+def correspond(records, ref_records):
+    if a.no_model or not (records or ref_records):
+        return
     PRE = ('Definition o2z (o : option Z) : Z := match o with Some v => v | None => -1 end.\n'
            'Definition ut (H : hdr) (t : Z * Z * Z) : Z * Z := match t with (iu, xu, zu) => '
            'match unit_expect H iu xu zu with (p, o) => (p, o2z o) end end.\n'
@@ -461,4 +371,105 @@ if not a.no_model and (records or ref_records):
                     R.violation('corr', r['inp'], f'implementation refuses, model: guard={guard}, {outc}')
             elif not r['refused']:
                 R.violation('corr', r['inp'], 'model refuses (AssertErr), implementation does not')
+
+
+cases = build_cases(a.tier)
+records = []      # per case: what the correspondence needs
+src, out = os.path.join(D, 'src.sgz'), os.path.join(D, 'out.sgz')
+t_start = time.time()
+for case in cases:
+    canon = (case['shape'], case['irregular'], case['cfg'], case['route'])
+    inp = {'shape': list(case['shape']), 'irregular': case['irregular'], 'headers': case['cfg'], 'route': case['route'], 'seed': case['seed']}
+    for p in (src, out):
+        if os.path.exists(p):
+            os.remove(p)
+    try:
+        make_source(case, src)
+    except Exception as e:
+        R.notes.append(f'source {inp} could not be written: {repr(e)[:120]}')
+        continue
+    S = SpecFile(src)
+    if S.is2d or S.bs != (4, 4, 1024) or S.rate != 2:
+        R.notes.append(f'source {inp} is not a 2-bit default-layout 3D file: skipped')
+        continue
+    exc, reads = reblock(src, out)
+    if exc is not None:
+        R.violation('oracle', inp, 'convert_to_adv_sgz raised ' + repr(exc)[:200])
+        R.case(canon, True)
+        continue
+    O = SpecFile(out)
+    problems = oracle(case, src, out, S, O)
+    for m in problems:
+        R.violation('oracle', inp, m)
+    R.case(canon, nontrivial=case['shape'] != (1, 1, 1),
+           sample={'shape': list(case['shape']), 'irregular': case['irregular'], 'headers': case['cfg'], 'stored_arrays': S.nha,
+                   'out_blocks': O.ndb, 'reads': len(reads)})
+    R.count('irregular' if case['irregular'] else 'regular')
+    R.count(f'arrays={S.nha}')
+    R.count('z blocks of the source=%d' % (S.shape_pad[2] // 1024))
+    R.count('64-blocks il x xl = %dx%d' % (-(-S.n_il // 64), -(-S.n_xl // 64)))
+    if not a.no_model:
+        gi, gx, gz = -(-S.n_il // 64) * 16, -(-S.n_xl // 64) * 16, -(-S.n_s // 4)
+        coords = None
+        if gi * gx * gz > 8000:
+            cs = set()
+            for iu in (0, 1, (S.n_il - 1) // 4, min((S.n_il - 1) // 4 + 1, gi - 1), 15, 16, gi - 1):
+                for xu in (0, (S.n_xl - 1) // 4, min((S.n_xl - 1) // 4 + 1, gx - 1), 15, 16, gx - 1):
+                    for zu in (0, 1, 255, 256, gz - 1):
+                        if 0 <= iu < gi and 0 <= xu < gx and 0 <= zu < gz:
+                            cs.add((iu, xu, zu))
+            while len(cs) < 700:
+                cs.add((rng.randrange(gi), rng.randrange(gx), rng.randrange(gz)))
+            coords = sorted(cs)
+        with SgzReader(src) as rr:
+            nfo = len(rr.stored_header_keys)
+            mask = None
+            if not rr.structured:
+                rr.get_unstructured_mask()
+                mask = rr.mask.copy()
+        records.append(dict(inp=inp, H=hdr_literal(S.raw), T=template_of(S.raw), hb64=list(S.raw[:64]), ob64=list(O.raw[:64]),
+                            reads=reads, nfo=nfo, mask=mask, coords=coords, grid=(gi, gx, gz), nlive=S.tracecount,
+                            S=S, O=O))
+    S._units = O._units = None          # drop the decoded volumes
+    if len(records) >= 40:
+        correspond(records, [])
+        records = []
+    if time.time() - t_start > (110 if a.tier == 'quick' else 660):
+        R.notes.append(f'{a.tier} tier time budget reached: remaining generated cases skipped')
+        break
+
+# ------------------------------------------------------------------------------------------------ unsupported inputs
+ref_records = []
+for case in refused_cases():
+    inp = {'shape': list(case['shape']), 'headers': case['cfg'], 'route': case['route'], 'bpv': case.get('bpv', 2),
+           'blockshape': list(case.get('blockshape') or ())}
+    for p in (src, out):
+        if os.path.exists(p):
+            os.remove(p)
+    try:
+        if case['route'] == '2d':
+            sgy = src + '.sgy'
+            mk_segy_2d(sgy, rnd_cube(random.Random(case['seed']), (21, 9)))
+            write_segy_sgz(sgy, src, bpv=2)
+            os.remove(sgy)
+        else:
+            make_source(case, src)
+    except Exception as e:
+        R.notes.append(f'unsupported-input source {inp} could not be written: {repr(e)[:120]}')
+        continue
+    S = SpecFile(src)
+    exc, reads = reblock(src, out)
+    supported = (not S.is2d) and S.bs == (4, 4, 1024) and S.rate == 2
+    R.case(('refuse', case['cfg'], str(case.get('bpv')), str(case.get('blockshape'))), True)
+    R.count('unsupported input')
+    if supported:
+        R.notes.append(f'{inp} is a supported input after all')
+        continue
+    if not isinstance(exc, AssertionError):
+        R.violation('oracle', inp, f'unsupported input not refused with AssertionError: {repr(exc)[:120]}')
+    if os.path.exists(out):
+        R.violation('oracle', inp, 'a refused conversion left an output file')
+    ref_records.append(dict(inp=inp, H=hdr_literal(S.raw), refused=isinstance(exc, AssertionError)))
+
+correspond(records, ref_records)
 R.write(a.out)
